@@ -273,3 +273,31 @@ Definition c15_run (gam bet : fl) (batch out_iter : nat) (B : list (list fl))
 Definition c15_metric (d : nat) (wv : list Q) (B M : list (list Q)) : bool :=
   forallb (Qle_bool 0) wv &&
   mclose (Qred (tol_1e9 * qmaxabs M)) (@wgram QOps d wv B) M.
+
+(* ---------------- C11 ---------------------------------------------------------------------- *)
+From ML Require Import ITML.
+Definition fmclose (rtol atol : fl) := all2 (fvclose rtol atol).
+Definition fmaxabs (A : list (list fl)) : fl :=
+  fold_right (fun r m => fold_right (fun a m' => if PrimFloat.leb (PrimFloat.abs a) m' then m' else PrimFloat.abs a) m r)
+             PrimFloat.zero A.
+(* re-run of the documented projections on binary64: final A, duals *)
+Definition c11_run (g : option fl) (A0 : list (list fl)) (vs : list (list fl * bool)) (lo hi : fl)
+    (n_sweeps : nat) (A_impl : list (list fl)) (lam_impl bhat_impl : list fl) : bool :=
+  let cs := map (fun vb => @Build_cstr FOps (fst vb) (snd vb)) vs in
+  let s := @run FOps g cs n_sweeps (@init FOps A0 cs lo hi) in
+  let tolA := PrimFloat.mul f1em6 (fmaxabs A_impl) in
+  fmclose PrimFloat.zero tolA (A s) A_impl &&
+  fvclose f1em6 f1em9 (map (@lam FOps) (duals s)) lam_impl &&
+  fvclose f1em6 f1em9 (map (@bhat FOps) (duals s)) bhat_impl.
+
+(* the certificate of the first sentence of C11, on the implementation's own numbers (exact rationals):
+   M symmetric positive definite, lambda >= 0, M * (M0^-1 + sum_i y_i lambda_i v_i v_i^T) = I *)
+Definition c11_certificate (d : nat) (M M0 : list (list Q)) (vs : list (list Q * bool)) (lams : list Q) : bool :=
+  c_spd tol_1e9 M && forallb (Qle_bool 0) lams &&
+  match @minv QOps M0 with
+  | None => false
+  | Some B0 =>
+      let signed := map2 (fun (vb : list Q * bool) (l : Q) => if snd vb then l else Qopp l) vs lams in
+      let B := @madd QOps B0 (@wgram QOps d signed (map fst vs)) in
+      mclose tol_1e6 (@mmulg QOps M B) (identQ d)
+  end.
